@@ -342,7 +342,7 @@ func TestC19(t *testing.T) {
 		w.initProvider(p, "https://p.example.com")
 		f, _ := w.postFile(a, c02Content(100), 2, 0)
 		w.honestProve(p, f)                                                                      // a FileProof record
-		w.f.Exec(newMsgRegisterName(a.Bech, "alpha.jkl", 1, "{}", true))                // a primary name
+		w.f.Exec(newMsgRegisterName(a.Bech, "alpha.jkl", 1, "{}", true))                         // a primary name
 		w.f.Exec(&notiftypes.MsgBlockSenders{Creator: a.Bech, ToBlock: []string{p.Bech}})        // a block entry
 		w.f.Exec(&notiftypes.MsgCreateNotification{Creator: a.Bech, To: p.Bech, Contents: "{}"}) // a real notification
 		r := c19RoundTrip(c, w.f.Ctx)
